@@ -48,6 +48,12 @@ def run_variant(v, keep=False):
         txt = p.stdout + p.stderr
         if p.returncode == 2:
             return (v["id"], "error", txt.strip().splitlines()[-1] if txt.strip() else "exit 2")
+        if v.get("silent"):
+            # negative control: a behaviour-preserving edit must not raise an alarm
+            if p.returncode == 0:
+                return (v["id"], "silent-ok", "")
+            viol = [l.strip() for l in txt.splitlines() if l.strip().startswith("violated")]
+            return (v["id"], "FALSE-ALARM", "; ".join(x[:200] for x in viol[:3]))
         if p.returncode == 0:
             return (v["id"], "MISSED", "analysis reports no violation")
         exp = v.get("expect_rule")
@@ -91,11 +97,11 @@ def main():
         for r in ex.map(run_variant, vs):
             res.append(r)
             print("%-14s %s %s" % (r[1], r[0], r[2]), flush=True)
-    n = {k: sum(1 for r in res if r[1] == k) for k in ("detected", "detected-other", "MISSED", "skipped", "error")}
+    n = {k: sum(1 for r in res if r[1] == k) for k in ("detected", "detected-other", "silent-ok", "MISSED", "FALSE-ALARM", "skipped", "error")}
     print("selftest:", n)
     if args.json:
         json.dump({"results": res, "summary": n}, open(args.json, "w"), indent=1)
-    sys.exit(0 if n["MISSED"] == 0 and n["error"] == 0 else 2)
+    sys.exit(0 if n["MISSED"] == 0 and n["error"] == 0 and n["FALSE-ALARM"] == 0 else 2)
 
 
 if __name__ == "__main__":
